@@ -206,7 +206,7 @@ func (h *Harness) judge(w Workload, wr *WlRun, ht Hit, mode string, c *ChildRes)
 	r := h.r
 	rep := map[string]interface{}{"case": Case{Workload: w.Name, Hit: ht.N, Mode: mode}, "point": ht.Name, "hit_index": ht.Idx, "ops": w.Ops, "child": c, "expected_final": wr.Final}
 	where := fmt.Sprintf("workload %s, crash at %s#%d (point %d), %s re-open", w.Name, ht.Name, ht.Idx, ht.N, mode)
-	known := map[string]bool{h.base.Tip: true}
+	known := map[string]bool{h.base.Tip: true, h.ref.gen: true}
 	for i := 0; i < ht.NSub && i < len(wr.Names); i++ {
 		known[wr.Hash[wr.Names[i]]] = true
 	}
@@ -360,7 +360,7 @@ func (h *Harness) truncations(w Workload, wr *WlRun, blocksFile string) {
 	// index record of the block UTXO.db was written for (the final tip)
 	tipRec := -1
 	for rec := 0; rec < nrec; rec++ {
-		if hex.EncodeToString(btc.NewSha2Hash(idx[rec*136+56:rec*136+136]).Hash[:]) == wr.Final.Tip {
+		if hex.EncodeToString(btc.NewSha2Hash(idx[rec*136+56 : rec*136+136]).Hash[:]) == wr.Final.Tip {
 			tipRec = rec
 		}
 	}
@@ -390,14 +390,14 @@ func (h *Harness) truncations(w Workload, wr *WlRun, blocksFile string) {
 			r.Hit("trunc-ok:" + j.file)
 			continue
 		}
-		if j.file == "blockchain.new" && j.n < (tipRec+1)*136 {
+		if j.file == "blockchain.new" && j.n < (tipRec+1)*136 && strings.Contains(c.Open, "Last Block Hash not found") {
 			// the snapshot's block lost its index record: cannot arise from a process kill (Chain.Idle writes blocks before
 			// it starts a snapshot) but is inside the property's quantifier (prefix truncation of the index)
 			r.PropFail(keyTruncIdx, "the index is truncated below the block of UTXO.db: loadBlockIndex panics 'Last Block Hash not found' (no fall-back to UTXO.old / rescan): "+where+": "+bad, rep)
 			r.Hit("known:" + keyTruncIdx)
 			continue
 		}
-		if j.file == datName {
+		if j.file == datName && c.Open == "ok" && strings.Contains(bad, "EOF") {
 			r.PropFail(keyTruncDat, "index records point past the end of the data file; not detected at open, the block is unreadable later: "+where+": "+bad, rep)
 			r.Hit("known:" + keyTruncDat)
 			continue
